@@ -62,6 +62,7 @@ def gen_config(rng, seg_p=0.5):
         cfg["per_axis"] = rng.random() < 0.25
     cfg["custom"] = rng.random() < 0.5
     cfg["custom_edge"] = rng.random() < 0.4
+    cfg["zero_ids"] = rng.random() < 0.15
     return cfg
 
 
@@ -119,6 +120,18 @@ def build_tracks(cfg, g, seg):
     if cfg["per_axis"]:
         kw["pos_attr"] = (["z"] if cfg["ndim"] == 4 else []) + ["y", "x"]
     t = SolutionTracks(g, segmentation=seg, ndim=cfg["ndim"], scale=cfg["scale"], **kw)
+    if cfg.get("zero_ids"):
+        # a solution that arrives with its own 0-based track / lineage ids (valid existing ids are kept):
+        # id 0 is falsy, None is not
+        g2 = g.copy()
+        for n in g2.nodes:
+            g2.nodes[n]["track_id"] = int(t.get_track_id(n)) - 1
+            g2.nodes[n]["lineage_id"] = int(t.get_lineage_id(n)) - 1
+        for n in g2.nodes:
+            for k in list(g2.nodes[n]):
+                if k not in ("time", "pos", "z", "y", "x", "track_id", "lineage_id"):
+                    del g2.nodes[n][k]
+        t = SolutionTracks(g2, segmentation=None if seg is None else np.array(seg), ndim=cfg["ndim"], scale=cfg["scale"], **kw)
     if cfg["enable"]:
         t.enable_features(list(cfg["enable"]))
     if cfg["custom"]:
